@@ -24,13 +24,16 @@ class Recorder:
 def make_cb(rec):
     from qucumber.callbacks import CallbackBase
 
-    class CB(CallbackBase):
+    class EventLog(CallbackBase):
         def on_train_start(self, s): rec._rec(s, "train_start")
         def on_train_end(self, s): rec._rec(s, "train_end")
         def on_epoch_start(self, s, e): rec._rec(s, "epoch_start", e)
         def on_epoch_end(self, s, e): rec._rec(s, "epoch_end", e)
         def on_batch_start(self, s, e, b): rec._rec(s, "batch_start", e, b)
         def on_batch_end(self, s, e, b): rec._rec(s, "batch_end", e, b)
+
+    class CB(EventLog):          # the user's callback inherits its hooks from a base class of the user's
+        pass
     return CB()
 
 
